@@ -214,30 +214,41 @@ def _fxval(ctx, n, only=None):
 
 
 def run(ctx):
-    ctx.modelled += ["symbolic tie: the harness copies Symbol/Precedence/presence of Evaluate and EvaluateUnary from "
-                     "eval.FixedOperators / FloatOperators and the names of eval.FixedFunctions / FloatFunctions into an "
-                     "eval.Evaluator whose functions build strings; the exported fields make the parse tree observable",
-                     "strings.TrimSpace is modelled on bytes (ASCII blanks and the UTF-8 encodings of the Unicode White_Space runes)"]
-    ctx.modelled += ["proved (Props/C09.lean, about the definitions the driver runs): parse_render — parseTop(render e) = tree e "
-                     "at character level for the full language (atoms incl. exponent literals 1.2e-2 and $variables, nested "
-                     "function calls f ( a , b ), all binary operators, signs before atoms/calls/parentheses, parentheses) in "
-                     "every blank layout; call_capture — processFunction's loop = counting '(' / ')' bytes, for every text; "
-                     "nextArg_split — NextArg iterated splits a rendered argument list at exactly its separating commas; "
-                     "replaceVariables_args — substitution on the raw argument text = argument text of the substituted call; "
-                     "evaluate_render / evaluate_reuse_render — Evaluate(render e) = bracketed form of e with its variables "
-                     "replaced, incl. nested EvaluateNew through function arguments, for resolvers answering with literals "
-                     "(evaluate_render_closed: no variables, any or no resolver; evaluate_render_vars_partial: any non-blank "
-                     "`$`-free answers for variables outside call arguments); whitespace_irrelevant; evaluate_no_panic / "
-                     "evaluate_total — Evaluate of EVERY byte list neither panics nor exhausts a fuel (resolver answers "
-                     "`$`-free and not longer than `$name`, the latter only for the model's nesting budget len+1)",
-                     "no statement of C09 is left as an unproved `_Statement`; NOT modelled in Lean at all: the operator and "
-                     "function VALUES (fixed/float arithmetic, division by zero as configured, arity of the standard "
-                     "functions) — they are tied by the val stream (the model's tree walked with the library's own "
-                     "operator functions vs the six real evaluators)"]
-    ctx.assumptions += ["variable resolvers return literals (text without `$`); a resolver answering with `$…` makes "
-                        "replaceVariables loop, which is outside the property's quantifier",
+    ctx.modelled += [
+        "symbolic tie (struct): the harness copies Symbol/Precedence/presence of Evaluate and EvaluateUnary from "
+        "eval.FixedOperators / FloatOperators and the names of eval.FixedFunctions / FloatFunctions into an eval.Evaluator "
+        "whose functions build strings; the exported fields make the parse tree observable; the driver threads the "
+        "evaluator state (the stacks the previous call left) from line to line",
+        "strings.TrimSpace is modelled on bytes (ASCII blanks and the UTF-8 encodings of the Unicode White_Space runes); "
+        "blanks BETWEEN tokens are the four bytes the scan loop skips (space, tab, newline, carriage return)",
+        "proved about the definitions the driver runs (Props/C09.lean): parse_render / evaluate_render — for the full "
+        "language (atoms incl. exponent literals and $variables such as $e, $rate, $a1e; nested calls; binary operators; "
+        "signs; parentheses) in every blank layout, parse = tree and Evaluate = bracketed form; call_capture, "
+        "nextArg_split, replaceVariables_args; whitespace_irrelevant; parse_no_panic / parse_total for every byte list; "
+        "evaluate_no_panic / evaluate_total / evaluate_no_panic_budget / evaluate_no_panic_driver — Evaluate of EVERY byte "
+        "list with EVERY resolver whose answers contain no `$` neither panics nor (beyond a finite budget) runs out of "
+        "the model's nesting budget; reuse_eq_fresh / reuse_after_any_history for every old evaluator state, "
+        "reset_is_needed (without the two reset statements a leftover operand changes a later result)",
+        "VALUES of the fixed-point evaluator are inside the Lean model (Model/EvalFixed.lean: FixedFrom, || && == != < "
+        "<= > >= + - * / % with the string fall-backs and the configured division by zero, the signs, abs ceil floor round "
+        "max min if — composed from the C03 model Model/Fixed.lean and the C04 model Model/FixedText.lean) and compared "
+        "directly, model vs code, by the fxval stream; fixed_value_render (Evaluate(render e) = value of the tree), "
+        "fixed_operators_are_f64 / fixed_operators_exact / fixed_functions_are_f64 / fixed_floor_spec, "
+        "div_by_zero_configured / div_by_zero_render, sign_on_literal / sign_applies_to_operand_value, "
+        "bool_counts_as_one, string_fallbacks, fixed_value_no_panic",
+        "NOT modelled in Lean (opaque `outside` in the model, taken from the implementation): everything that goes "
+        "through float64 — literals with an exponent inside the fixed evaluator, the operator ^, sqrt cbrt exp exp2 log "
+        "log10 log1p, and the float evaluators altogether; they are tied by the val stream (the model's tree walked "
+        "with the library's operators, each application judged by an independent reference — Go float arithmetic / "
+        "f64 methods — on ten real evaluators).  Kept as C09.fixed_value_Statement: robustness of the VALUE model on "
+        "every byte list (proved for the symbolic evaluation and for well-formed input)"]
+    ctx.assumptions += ["variable resolvers answer with literals (text without `$`): the Go loop in replaceVariables re-scans "
+                        "its own output, so chains ($a -> $b -> 7) are followed but a self-referential answer ($x -> $x) "
+                        "never returns; this is the one resolver hypothesis (h36) of the no-panic theorems",
                         "function calls in well-formed expressions have the arity of the function (`max()` vs `max( )` "
-                        "and `abs(1,2)` vs `abs(1 , 2)` evaluate differently and are not counted as well-formed)"]
+                        "and `abs(1,2)` vs `abs(1 , 2)` evaluate differently and are not counted as well-formed)",
+                        "the model's nesting budget (the Go code has none) is len*33+1 in the driver: enough for resolver "
+                        "answers up to 32 bytes longer than `$name`"]
     ctx.lean(props=["Props.C09"], drivers=["drv_c09"])
     ctx.harness("./cmd/c09")
     if ctx.replay:
